@@ -1361,7 +1361,25 @@ static void gen_expr(Node *node) {
   }
   case TY_LDOUBLE: {
     gen_expr(node->lhs);
-    gen_expr(node->rhs);
+
+    Node *rhs = node->rhs;
+    while (rhs->kind == ND_CAST)
+      rhs = rhs->lhs;
+
+    if (rhs->kind == ND_NUM || rhs->kind == ND_VAR) {
+      gen_expr(node->rhs);
+    } else {
+      // The right operand may call a function, and a function may use
+      // all eight x87 registers: the left operand waits in memory.
+      println("  sub $16, %%rsp");
+      println("  fstpt (%%rsp)");
+      depth += 2;
+      gen_expr(node->rhs);
+      println("  fldt (%%rsp)");
+      println("  fxch %%st(1)");
+      println("  add $16, %%rsp");
+      depth -= 2;
+    }
 
     switch (node->kind) {
     case ND_ADD:
